@@ -1,4 +1,4 @@
-(* C17 - executable interleaving model of AudioIO / AudioThread (audiolazy/lazy_io.py, after the repairs
+(* C17 - executable interleaving model of AudioIO / AudioThread (audiolazy/lazy_io.py after the repairs
    47547f6, 978c428, bdb2b32) at synchronisation-point granularity.  NO proofs in this file.
 
    Threads: tid 0 is the main thread running a control script (play / pause / resume / stop / close
@@ -11,17 +11,22 @@
    of PyAudio._streams by the assert in close), AudioThread.start, AudioThread.join and
    AudioThread.is_alive (read by play when it prunes manager._started).
    A blocking primitive that cannot proceed is a DISABLED transition (step returns None).
+   Ghost state (not in the code, used by the theorems only): the owner of each lock (Python's Lock is
+   a flag), paudio (all chunks of a player), pafter (chunks written after halting was set).
 
    What this model cannot exhibit (trusted-base notes of the property):
    - pre-emption inside a Python bytecode / inside one primitive (each primitive is atomic; CPython's
      GIL makes the flag and list accesses atomic, the model relies on it);
    - PortAudio's own callback threads, device timing, write_stream blocking or failing;
    - AudioIO.__del__ run by the garbage collector or at interpreter exit (it is close() on another
-     thread; the model has ONE control thread, so manager.finished and manager._started are only touched by
-     tid 0 and their accesses are thread-local code);
+     thread; the model has ONE control thread, so manager.finished and manager._started are only
+     touched by tid 0 and their accesses are thread-local code; with several control threads the
+     unlocked read of _started in close would race with play);
    - unbounded audio: every played iterable is a finite list (with wait=True "finite audio" is a
-     hypothesis of the property), exceptions raised by the iterable or by struct.pack;
-   - recording (RecStream, manager._recordings is empty), the `api` constructor argument.
+     hypothesis of the property), exceptions raised by the iterable or by struct.pack
+     (e.g. chunks(dfmt="h") with the default float padval raises in the player thread);
+   - recording (RecStream, manager._recordings is empty), the `api` constructor argument;
+   - commands on a player that does not exist yet are skipped (by the harness driver and by fetch).
    The manager is created by AudioIO(wait) before the first transition. *)
 From Coq Require Import List Bool Arith ZArith.
 Import ListNotations.
